@@ -171,7 +171,7 @@ func (env *SpecEnv) callGo(fn *ssa.Function, recv *Term, args []Expr) Value {
 		vals = append(vals, env.evalTerm(a, params[pi+i].Type()))
 	}
 	// contract-based application for recursive or looping functions
-	if ct := ex.prog.contractFor(fn); ct != nil && (ct.Pure || !ex.prog.isLoopFree(fn) || ex.prog.isRecursive(fn)) && fn.Signature.Results().Len() == 1 {
+	if ct := ex.prog.contractFor(fn); ct != nil && ct.Opts["inline"] == "" && (ct.Pure || !ex.prog.isLoopFree(fn) || ex.prog.isRecursive(fn)) && fn.Signature.Results().Len() == 1 {
 		return ex.applyPureContract(env.st, fn, ct, vals)
 	}
 	st := env.st.clone()
@@ -234,7 +234,7 @@ func (ex *Exec) specFuncApply(inner *SpecEnv, sf *SpecFunc, argv []Term) Value {
 	if ex.probing > 0 {
 		return Term{S: "probe!" + name, T: ret}
 	}
-	if sf.Body != nil {
+	if sf.Body != nil && len(reads) == 0 {
 		ex.defineRecSpec(inner, sf, name, reads, sorts, ret)
 	} else {
 		ex.vc.declareFun(name, "("+strings.Join(sorts, " ")+")", ex.vc.tc.sortOf(ret))
@@ -242,7 +242,14 @@ func (ex *Exec) specFuncApply(inner *SpecEnv, sf *SpecFunc, argv []Term) Value {
 	if len(actuals) == 0 {
 		return Term{S: name, T: ret}
 	}
-	return Term{S: sx(name, actuals...), T: ret}
+	app := Term{S: sx(name, actuals...), T: ret}
+	if len(reads) > 0 {
+		ex.frameAxiom(inner, sf, name, reads, sorts, ret)
+		if sf.Body != nil {
+			ex.autoUnfold(inner, sf, argv, app)
+		}
+	}
+	return app
 }
 
 func (ex *Exec) compTerm(st *State, comp string) string {
@@ -276,8 +283,7 @@ func (ex *Exec) specReads(inner *SpecEnv, sf *SpecFunc) []string {
 	if r, ok := cache[key]; ok {
 		return r
 	}
-	if sf.Body == nil {
-		// uninterpreted spec function: reads given explicitly? none.
+	if sf.Body == nil && sf.Reads == nil {
 		cache[key] = nil
 		return nil
 	}
@@ -304,7 +310,11 @@ func (ex *Exec) specReads(inner *SpecEnv, sf *SpecFunc) []string {
 				panic(r)
 			}
 		}()
-		n.evalTerm(sf.Body, n.resolveType(sf.Ret))
+		if sf.Body != nil {
+			n.evalTerm(sf.Body, n.resolveType(sf.Ret))
+		} else {
+			n.evalTerm(sf.Reads, nil)
+		}
 	}()
 	var reads []string
 	seen := map[string]bool{}
@@ -323,6 +333,15 @@ func (ex *Exec) specReads(inner *SpecEnv, sf *SpecFunc) []string {
 
 // unfoldSpec returns the defining equation of a recursive spec function at given arguments in state st.
 func (env *SpecEnv) unfoldSpec(e Expr) string {
+	if o, isOld := e.(EOld); isOld {
+		if env.old == nil {
+			sfail("unfold old(...) outside a postcondition")
+		}
+		n := env.sub()
+		n.st = env.old
+		n.inOld = true
+		return n.unfoldSpec(o.X)
+	}
 	call, ok := e.(ECall)
 	if !ok {
 		sfail("unfold needs a spec function application, got %s", exprString(e))
@@ -412,4 +431,122 @@ func (ex *Exec) defineRecSpec(inner *SpecEnv, sf *SpecFunc, name string, reads, 
 	vc.noDefine--
 	vc.defs[name] = &defn{sort: vc.tc.sortOf(ret), args: "(" + strings.Join(params, " ") + ")", def: body.S, isRec: true}
 	vc.order = append(vc.order, name)
+}
+
+// autoUnfold asserts the defining equation of a heap-recursive spec function at this application
+// (one level by default: applications created while unfolding are not unfolded again).
+func (ex *Exec) autoUnfold(inner *SpecEnv, sf *SpecFunc, argv []Term, app Term) {
+	fuel := ex.fuel
+	if fuel == 0 {
+		fuel = 1
+	}
+	if ex.fuelOverride > 0 {
+		fuel = ex.fuelOverride
+	}
+	if ex.unfoldDepth >= fuel || ex.vc.noDefine > 0 || ex.probing > 0 {
+		return
+	}
+	// applications that mention a bound variable cannot be unfolded outside their quantifier
+	for _, s := range symbolsOf(app.S) {
+		if strings.HasPrefix(s, "q_") || strings.HasSuffix(s, "!") || strings.HasPrefix(s, "a!") || strings.HasPrefix(s, "f!") {
+			return
+		}
+	}
+	key := "unfold:" + app.S
+	if ex.unfolded == nil {
+		ex.unfolded = map[string]bool{}
+	}
+	if ex.unfolded[key] {
+		return
+	}
+	ex.unfolded[key] = true
+	ex.unfoldDepth++
+	defer func() { ex.unfoldDepth-- }()
+	n := inner.sub()
+	n.vars = map[string]Value{}
+	n.fr = nil
+	for i, p := range sf.Params {
+		n.vars[p.Name] = argv[i]
+	}
+	rhs := n.evalTerm(sf.Body, app.T)
+	fname := strings.Fields(strings.TrimPrefix(app.S, "("))[0]
+	ex.vc.addAxiom(fmt.Sprintf("unfold%d_%s", len(ex.unfolded), fname), sx("=", app.S, rhs.S), fname)
+}
+
+// frameAxiom: a heap-recursive spec function depends only on the objects in its declared footprint
+// (reads clause). Generated once per function; a metatheorem for structurally recursive definitions.
+func (ex *Exec) frameAxiom(inner *SpecEnv, sf *SpecFunc, name string, reads, sorts []string, ret types.Type) {
+	vc := ex.vc
+	if sf.Reads == nil {
+		return
+	}
+	axName := "frame_" + name
+	for _, a := range vc.axioms {
+		if a.name == axName {
+			return
+		}
+	}
+	if vc.recBusy == nil {
+		vc.recBusy = map[string]bool{}
+	}
+	if vc.recBusy[axName] {
+		return
+	}
+	vc.recBusy[axName] = true
+	defer delete(vc.recBusy, axName)
+	formal := &State{pc: "true", cells: map[*ssa.Alloc]Value{}, heap: map[string]string{}, ghost: map[string]string{}}
+	var decls, f1, f2, agree []string
+	for i, c := range reads {
+		a, b := "f!"+mangle(c), "g!"+mangle(c)
+		formal.heap[c] = a
+		decls = append(decls, "("+a+" "+sorts[i]+")", "("+b+" "+sorts[i]+")")
+		f1 = append(f1, a)
+		f2 = append(f2, b)
+		if ex.vc.heapT[c].isArr {
+			agree = append(agree, sx("=", sx("select", a, "r!"), sx("select", b, "r!")))
+		} else {
+			agree = append(agree, sx("=", a, b))
+		}
+	}
+	n := inner.sub()
+	n.st = formal
+	n.old = nil
+	n.fr = nil
+	n.vars = map[string]Value{}
+	var ps []string
+	for i, p := range sf.Params {
+		a := "a!" + p.Name
+		n.vars[p.Name] = Term{S: a, T: n.resolveType(p.Type)}
+		decls = append(decls, "("+a+" "+sorts[len(reads)+i]+")")
+		ps = append(ps, a)
+	}
+	vc.noDefine++
+	ex.unfoldDepth += 100
+	fp := n.evalTerm(sf.Reads, nil)
+	ex.unfoldDepth -= 100
+	vc.noDefine--
+	app1 := sx(name, append(append([]string{}, f1...), ps...)...)
+	app2 := sx(name, append(append([]string{}, f2...), ps...)...)
+	same := fmt.Sprintf("(forall ((r! Int)) (=> (select %s r!) %s))", fp.S, sAnd(agree...))
+	ax := fmt.Sprintf("(forall (%s) (! (=> %s (= %s %s)) :pattern (%s %s)))", strings.Join(decls, " "), same, app1, app2, app1, app2)
+	vc.addAxiom(axName, ax, name)
+	// value at nil (the base case of the definition), for every heap
+	if len(sf.Params) == 1 && sf.Body != nil {
+		if _, isPtr := n.resolveType(sf.Params[0].Type).Underlying().(*types.Pointer); isPtr {
+			n2 := n.sub()
+			n2.vars[sf.Params[0].Name] = Term{S: "0", T: n.resolveType(sf.Params[0].Type)}
+			vc.noDefine++
+			ex.unfoldDepth += 100
+			base := n2.evalTerm(sf.Body, ret)
+			ex.unfoldDepth -= 100
+			vc.noDefine--
+			var hdecls []string
+			for i, c := range reads {
+				hdecls = append(hdecls, "(f!"+mangle(c)+" "+sorts[i]+")")
+			}
+			appNil := sx(name, append(append([]string{}, f1...), "0")...)
+			vc.addAxiom("nil_"+name, fmt.Sprintf("(forall (%s) (! (= %s %s) :pattern (%s)))", strings.Join(hdecls, " "), appNil, base.S, appNil), name)
+		}
+	}
+	vc.note("frame axiom for recursive spec function %s (depends only on its declared footprint)", sf.Name)
 }
